@@ -31,6 +31,9 @@
   OBLIGATION c17_tokens_compose_block
   OBLIGATION c17_tokens_wf_any_order
   OBLIGATION c17_compose_groups_spec
+  OBLIGATION c17_container_wrappers
+  OBLIGATION c17_container_hashset_variant_differs
+  OBLIGATION c17_witness_pointer_option_in_list
 
   Nothing is left open: `c17_tokens` as first stated (no well-formedness hypothesis) is refuted
   (`c17_tokens_false`), the corrected statement `c17_tokens_wf` is proved for every option set,
@@ -46,6 +49,7 @@ import AGV.Spec.SdlParse
 import AGV.Lemmas.SdlBlock
 import AGV.Lemmas.SdlDocument
 import AGV.Lemmas.SdlGroups
+import AGV.Lemmas.RustTy
 
 namespace AGV.Props.C17
 open AGV.Core.Sdl AGV.Model.Sdl AGV.Spec.Literal AGV.Spec.Lex AGV.Lemmas.SdlBlock
@@ -633,5 +637,49 @@ theorem c17_chars (k : Kind) (S : Schema) (o : Opts) (hS : schemaOk S = true)
   exact (Lx_document o S hS hF gs ((composeGroups_ok S hS).perm hp)).tokens
 
 end Whole
+
+-- ------------------------------------------------------------------ declared Rust types (derive-built schemas)
+
+section Containers
+open AGV.Core.RustTy AGV.Core.PAst
+
+/-- THE WRAPPER RULE FOR CONTAINERS in the SDL's type syntax, all declared types: the type the
+    repaired `type_name` / `qualified_type_name` / `create_type_info` register for a position
+    declared with Rust type `t` (named types, every list container, `Option`, `MaybeUndefined`,
+    `Box` / `Arc` / `&`, nested to any depth) is the type the declaration means, and the text the
+    exporter writes for it is `[` element type `]!` for a container, the same without the final
+    `!` under `Option` / `MaybeUndefined`, `Name!` for a named type. -/
+theorem c17_container_wrappers (t : RTy) :
+    Model.RustTy.toP (Model.RustTy.created .none t) = Spec.RustTy.ptype t ∧
+    (∀ n, typeText (Spec.RustTy.ptype (.leaf n)) = n.toList ++ ['!']) ∧
+    (∀ k, typeText (Spec.RustTy.ptype (.list k t)) = '[' :: typeText (Spec.RustTy.ptype t) ++ [']', '!']) ∧
+    (∀ k, typeText (Spec.RustTy.ptype (.option (.list k t))) = '[' :: typeText (Spec.RustTy.ptype t) ++ [']']) ∧
+    (∀ k, typeText (Spec.RustTy.ptype (.undef (.list k t))) = '[' :: typeText (Spec.RustTy.ptype t) ++ [']']) ∧
+    (∀ p, Spec.RustTy.ptype (.ptr p t) = Spec.RustTy.ptype t) := by
+  refine ⟨?_, ?_, ?_, ?_, ?_, ?_⟩
+  · rw [AGV.Lemmas.RustTy.created_none, AGV.Lemmas.RustTy.toP_ref]
+  · intro n; simp [Spec.RustTy.ptype, typeText]
+  · intro k; simp [Spec.RustTy.ptype, typeText]
+  · intro k; simp [Spec.RustTy.ptype, Spec.RustTy.setNullable, typeText]
+  · intro k; simp [Spec.RustTy.ptype, Spec.RustTy.setNullable, typeText]
+  · intro p; rfl
+
+/-- the seeded variant of `HashSet<T>::type_name`: `Option<HashSet<i32>>` is exported as `[Int]` -/
+theorem c17_container_hashset_variant_differs :
+    let D : Model.RustTy.Defects := { hashSetInnerTypeName := true }
+    let t := RTy.option (.list .hashSet (.leaf "Int"))
+    typeText (Model.RustTy.toP (Model.RustTy.created D t)) = "[Int]".toList ∧
+    typeText (Spec.RustTy.ptype t) = "[Int!]".toList := by
+  decide
+
+/-- the pinned tree: `Vec<Box<Option<i32>>>` is exported as `[Int!]!`, the declaration means `[Int]!` -/
+theorem c17_witness_pointer_option_in_list :
+    let D : Model.RustTy.Defects := { ptrQualifiedDefault := true }
+    let t := RTy.list .vec (.ptr .box (.option (.leaf "Int")))
+    typeText (Model.RustTy.toP (Model.RustTy.created D t)) = "[Int!]!".toList ∧
+    typeText (Spec.RustTy.ptype t) = "[Int]!".toList := by
+  decide
+
+end Containers
 
 end AGV.Props.C17
